@@ -152,7 +152,7 @@ Definition rc_client : client :=
            "openid email" CibaPoll false false false false false false false 0 false.
 Definition rc_opts (rotation : bool) : list opt :=
   [WithScopes [ScExact "openid"; ScExact "email"]; WithAuthorizationCodeGrant;
-   WithRefreshTokenGrant 600%Z] ++ (if rotation then [WithRefreshTokenRotation] else []) ++
+   WithRefreshTokenGrantPol IssueCodeOnly 600%Z] ++ (if rotation then [WithRefreshTokenRotation] else []) ++
   [WithPAR 60%Z; WithCIBAGrant; WithTokenLifetime 300%Z].
 Definition rc_params : params :=
   mkParams 0 "https://c1.example/cb" "" "code" "openid email" "st" "" PkEmpty "" 0 "" 0 "" [].
